@@ -511,6 +511,15 @@ func GenC06(seed uint64, run int) *Trace {
 	cfg := GenConfig(r, c12Store(r))
 	t := &Trace{Prop: "C06", Engine: "crash", Seed: seed, Run: run, Cfg: cfg}
 	alpha := genAlphabet(r, r.Range(1, 5), false)
+	if r.Chance(1, 12) {
+		// a tiny archive: no roots, very short CIDs - the whole file stays below the size of a CARv2
+		// pragma + header (51 bytes), which is where size-based shortcuts go wrong
+		t.Cfg.Roots = []BlkSpec{}
+		t.Cfg.StoreID = true
+		t.Cfg.CarV1 = r.Chance(2, 3)
+		t.Cfg.DataPad, t.Cfg.IndexPad, t.Cfg.MaxIdxCid = 0, 0, 0
+		alpha = []BlkSpec{{Kind: "id", Seed: 1, Size: 0}, {Kind: "id", Seed: 2, Size: 1}, {Kind: "id", Seed: 3, Size: 2}, {Kind: "id", Seed: 4, Size: 3}}
+	}
 	put := func() {
 		if r.Chance(1, 4) {
 			t.Ops = append(t.Ops, Op{Kind: "putmany", Blks: genBatch(r, t.Cfg, alpha, 3)})
